@@ -1,0 +1,48 @@
+//go:build verif
+
+package stake
+
+import (
+	"fmt"
+	"github.com/rigochain/rigo-go/ledger"
+	"strings"
+)
+
+func (ctrler *StakeCtrler) VerifDelegateeLedger() *ledger.FinalityLedger[*Delegatee] {
+	return ctrler.delegateeLedger.(*ledger.FinalityLedger[*Delegatee])
+}
+
+func (ctrler *StakeCtrler) VerifFrozenLedger() *ledger.FinalityLedger[*Stake] {
+	return ctrler.frozenLedger.(*ledger.FinalityLedger[*Stake])
+}
+
+func (ctrler *StakeCtrler) VerifRewardLedger() *ledger.FinalityLedger[*Reward] {
+	return ctrler.rewardLedger.(*ledger.FinalityLedger[*Reward])
+}
+
+func (ctrler *StakeCtrler) VerifLastValidators() []*Delegatee {
+	return append([]*Delegatee(nil), ctrler.lastValidators...)
+}
+
+func (ctrler *StakeCtrler) VerifAllDelegatees() []*Delegatee {
+	return append([]*Delegatee(nil), ctrler.allDelegatees...)
+}
+
+func (ctrler *StakeCtrler) VerifLastRwdHash() []byte {
+	return ctrler.lastRwdHash
+}
+
+// VerifLimiterState renders the stake limiter's mutable state.
+func (ctrler *StakeCtrler) VerifLimiterState() string {
+	sl := ctrler.stakeLimiter
+	var sb strings.Builder
+	fmt.Fprintf(&sb, "base=%d updated=%d max=%d indi=%d upd=%d objs=", sl.baseTotalPower, sl.updatedPower,
+		sl.maxValidatorCnt, sl.individualLimitRatio, sl.updatableLimitRatio)
+	for i, o := range sl.powerObjs {
+		if i > 0 {
+			sb.WriteString(",")
+		}
+		fmt.Fprintf(&sb, "%x:%d", []byte(o.Addr), o.Power)
+	}
+	return sb.String()
+}
